@@ -234,6 +234,18 @@ def _release(ctx, vip, rule, epm):
                 return False
             loop = K.enclosing_for(graph, node)
             ok = K.guarded_by(graph, node, ok_edge, start=loop)
+            if not ok:
+                # the verdict may travel through a local ("owned"): judged
+                # path-sensitively - a name bound to a condition passes on
+                # what the condition establishes, a constant prunes
+                def owner_ok(atom, func=func, defs=defs):
+                    if _is_owner_equality(atom, defs, ctx, func):
+                        return True
+                    return func.cls is epm and atom.key[0] == 'truth' and \
+                        not atom.key[2] and atom.key[1] == 'owner'
+                bad = K.unestablished_path(
+                    graph, [node], {'owner': owner_ok}, start=loop)
+                ok = bad is None
             ctx.ob('C14.2', func, node, ok,
                    'released only when the recorded owner (basename of the '
                    'link target) equals the caller' if ok else
